@@ -295,7 +295,7 @@ class Ev:
 
 def parse_trace(lines):
     return [Ev(l) for l in lines if l.split() and l.split()[0] in
-            ("conn", "closed", "tx", "txlink", "cb", "info", "res", "now")]
+            ("conn", "closed", "rx", "tx", "txlink", "cb", "info", "res", "now")]
 
 
 def script_ops(script):
@@ -334,6 +334,234 @@ def nth_delay(mn, mx, k):
 
 
 AUTO_TYPES = ("disable-unsol", "integrity", "enable-unsol", "clear-restart", "time-sync", "event-scan")
+USER_KIND_OF = {"read": "user-read", "empty": "empty-7", "tsync": "time-sync", "link": "link"}
+
+
+def parse_fragment(hexs_):
+    """header fields of a received fragment, None when the master's transport rejects it"""
+    b = bytes.fromhex(hexs_) if hexs_ != "-" else b""
+    if len(b) < 4 or b[1] not in (0x81, 0x82):
+        return None
+    ctl = b[0]
+    f = {"uns": bool(ctl & 0x10), "fir": bool(ctl & 0x80), "fin": bool(ctl & 0x40), "con": bool(ctl & 0x20),
+         "seq": ctl & 15, "fc": b[1], "iin1": b[2], "iin2": b[3], "objs": b[4:]}
+    if b[1] == 0x81 and f["uns"]: return None
+    if b[1] == 0x82 and not f["uns"]: return None
+    if b[1] == 0x82 and not (f["fir"] and f["fin"]): return None
+    return f
+
+
+def objects_parse(b):
+    """the three object forms the generators use; True when all headers are well formed"""
+    b = list(b)
+    while b:
+        if len(b) >= 5 and b[0:3] == [1, 2, 0] and b[3] <= b[4]:
+            n = b[4] - b[3] + 1
+            if len(b) < 5 + n: return False
+            b = b[5 + n:]
+        elif len(b) >= 4 and b[0:3] == [2, 1, 0x17] and b[3] >= 1:
+            if len(b) < 4 + 2 * b[3]: return False
+            b = b[4 + 2 * b[3]:]
+        elif len(b) >= 4 and b[0:3] == [52, 2, 7] and b[3] >= 1:
+            if len(b) < 4 + 2 * b[3]: return False
+            b = b[4 + 2 * b[3]:]
+        else:
+            return False
+    return True
+
+
+class Timeline:
+    """the implementation trace of one msched script, joined with the script's ops"""
+
+    def __init__(self, case, impl):
+        self.cfg, self.ops = script_ops(case.script)
+        self.n = int(self.cfg.get("n", "1"))
+        self.assocs = [AssocCfg.parse(self.cfg.get("a%d" % i, "0:0:0:0:0:0:1000:10000:0:1000:16")) for i in range(self.n)]
+        self.ev = parse_trace(impl)
+        # time synchronisations whose start fails leave no trace, and those of the user are not told
+        # apart from the automatic ones: the retry delays of time-sync are checked only without both
+        self.silent_tsync = (self.cfg.get("systime", "none") == "none"
+                             or any(o[0] == "systime" and o[1] == "none" for _, o in self.ops)
+                             or any(o[0] == "user" and o[3] == "tsync" for _, o in self.ops))
+        # received fragments in the order they were handed to the connected master
+        marks = [e for e in self.ev if e.kind == "rx"]
+        rxops = [(t, o) for t, o in self.ops if o[0] == "rx" and o[2] != "-"]
+        self.rx = {}
+        k = 0
+        for m in marks:
+            while k < len(rxops) and not (rxops[k][0] == m.t and rxops[k][1][1] == m.f[2]):
+                k += 1
+            if k < len(rxops):
+                self.rx[id(m)] = parse_fragment(rxops[k][1][2])
+                k += 1
+        self.stream0 = [e for e in self.ev if e.kind in ("conn", "closed", "rx", "cb", "info", "txlink")]
+        self.tx = [e for e in self.ev if e.kind == "tx"]
+        self.res = [e for e in self.ev if e.kind == "res"]
+
+    def known(self, addr):
+        return 1024 <= addr < 1024 + self.n
+
+    def accepted(self, pos, a):
+        """is the solicited response marked at stream0[pos] accepted by the task of association a?
+        (the notifications that follow it at the same instant say so)"""
+        t = self.stream0[pos].t
+        for e in self.stream0[pos + 1:]:
+            if e.t != t or e.kind in ("rx", "closed"):
+                break
+            if e.kind == "info" and int(e.f[2]) == a:
+                if e.f[3] == "ok": return True
+                if e.f[3] == "fail" and e.f[5] in ("unexpected-headers", "malformed"): return True
+            if e.kind == "cb" and int(e.f[2]) == a and e.f[3] != "unsol": return True
+        # a time synchronisation that goes on with its WRITE of g50 accepted the first response
+        direct = any(x.kind == "info" and x.t == t and x.f[3] == "start" and x.f[4] == "time-sync" and x.f[5] == "2"
+                     for x in self.stream0[pos + 1:pos + 8])
+        if not direct:
+            for b in self.tx_at(t):
+                if len(b) >= 6 and b[1] == 2 and b[2] == 0x32 and b[3] in (1, 3) and b[4] == 7 and b[5] == 1:
+                    return True
+        return False
+
+    def user_links_pending(self, a, t):
+        """user link status requests of association a submitted by t and not answered before t"""
+        done = {int(e.f[2]): e.t for e in self.res}
+        return [o for ts, o in self.ops if o[0] == "user" and int(o[1]) == a and o[3] == "link" and ts <= t
+                and done.get(int(o[2]), 1 << 62) >= t]
+
+    def tx_at(self, t):
+        return [bytes.fromhex(e.f[2]) for e in self.tx if e.t == t and e.f[2] != "-"]
+
+
+def c17_oracle(case, impl):
+    fails = machinery_failures(impl)
+    if case.meta.get("kind") == "backoff" or not any(l.startswith("conn") for l in impl):
+        return fails
+    tl = Timeline(case, impl)
+    n = tl.n
+    st = [dict(dis=False, integ=False, gate=False, en=False, clear=False, expect_clear=False,
+               fails={}, last_fail={}) for _ in range(n)]
+    last_start_line = None      # the last start/txlink/conn/closed before the current line
+    since_fail_other = {}       # (a, K) -> something else started since the failure
+
+    def bad(clause, text, e):
+        fails.append((clause, "%s [%s]" % (text, e.line)))
+
+    for pos, e in enumerate(tl.stream0):
+        if e.kind == "closed":
+            for s in st:
+                s.update(dis=False, integ=False, gate=False, en=False, clear=False, expect_clear=False, fails={}, last_fail={})
+            since_fail_other.clear()
+            continue
+        if e.kind == "conn":
+            for k in list(since_fail_other): since_fail_other[k] = True
+            continue
+        if e.kind == "rx":
+            f = tl.rx.get(id(e))
+            src = int(e.f[2])
+            if f is None or not tl.known(src):
+                continue
+            a = src - 1024
+            s, c = st[a], tl.assocs[a]
+            if f["fc"] == 0x82 or tl.accepted(pos, a):
+                # Association::process_iin
+                if f["iin1"] & IIN1_RESTART and not s["clear"]:
+                    s.update(clear=True, integ=False, gate=False, en=False, expect_clear=True)
+                if f["iin2"] & IIN2_OVERFLOW and c.ovf:
+                    s["integ"] = False
+            if f["fc"] == 0x82:
+                # ---- gating of unsolicited responses
+                data = len(f["objs"]) > 0
+                delivered = any(x.kind == "cb" and x.t == e.t and int(x.f[2]) == a and x.f[3] == "unsol" for x in tl.stream0[pos:])
+                noted = any(x.kind == "info" and x.t == e.t and int(x.f[2]) == a and x.f[3] == "unsol" for x in tl.stream0[pos:])
+                confirmed = bytes([0xD0 | f["seq"], 0]) in tl.tx_at(e.t)
+                open_gate = (c.integ & 15) == 0 or s["gate"]
+                if data and not open_gate and (delivered or noted or confirmed):
+                    bad("unsol-gated", "data-bearing unsolicited response from association %d %s before its integrity poll completed"
+                        % (a, "delivered" if delivered else "confirmed" if confirmed else "accepted"), e)
+                if not data:
+                    if not noted:
+                        bad("unsol-empty-accepted", "empty unsolicited response from association %d was not accepted" % a, e)
+                    elif f["con"] and not confirmed:
+                        bad("unsol-empty-confirmed", "empty unsolicited response from association %d was not confirmed" % a, e)
+                if data and open_gate and objects_parse(f["objs"]):
+                    if not noted:
+                        bad("unsol-after-integrity", "unsolicited data from association %d ignored although the integrity poll had completed" % a, e)
+                    elif f["con"] and not confirmed:
+                        bad("unsol-after-integrity", "accepted unsolicited response from association %d not confirmed" % a, e)
+            continue
+        if e.kind == "txlink":
+            a = int(e.f[2])
+            if tl.user_links_pending(a, e.t):
+                for k in list(since_fail_other): since_fail_other[k] = True
+                continue
+            kind = "keep-alive"
+        elif e.kind == "info" and e.f[3] == "start":
+            a, kind = int(e.f[2]), e.f[4]
+        else:
+            kind = None
+        if kind is not None:
+            s, c = st[a], tl.assocs[a]
+            # ---- order of the start-up and restart tasks
+            if kind in ("disable-unsol", "integrity", "enable-unsol", "event-scan", "poll", "keep-alive"):
+                if s["clear"]:
+                    bad("restart-order", "%s of association %d started while a restart indication was not cleared yet" % (kind, a), e)
+                if s["expect_clear"]:
+                    bad("restart-order", "restart indication of association %d seen, but %s ran before clear-restart" % (a, kind), e)
+            if kind == "clear-restart":
+                s["expect_clear"] = False
+            if kind in ("integrity", "enable-unsol", "event-scan", "poll", "keep-alive") and (c.dis & 7) and not s["dis"]:
+                bad("startup-order", "%s of association %d started before DISABLE_UNSOLICITED was done in this connection" % (kind, a), e)
+            if kind in ("enable-unsol", "event-scan", "poll", "keep-alive") and (c.integ & 15) and not s["integ"]:
+                bad("startup-order", "%s of association %d started before the integrity poll completed" % (kind, a), e)
+            if kind in ("event-scan", "poll", "keep-alive") and (c.en & 7) and not s["en"]:
+                bad("startup-order", "%s of association %d started before ENABLE_UNSOLICITED was done" % (kind, a), e)
+            # ---- retry delays
+            if kind in AUTO_TYPES and not (kind == "time-sync" and tl.silent_tsync):
+                j = s["fails"].get(kind, 0)
+                if j > 0:
+                    due = s["last_fail"][kind] + nth_delay(c.rmin, c.rmax, j - 1)
+                    if e.t < due:
+                        bad("retry-delay", "%s of association %d retried at %d, before %d = failure %d at %d + delay"
+                            % (kind, a, e.t, due, j, s["last_fail"][kind]), e)
+                    elif e.t > due and not since_fail_other.get((a, kind), True):
+                        bad("retry-delay", "%s of association %d retried at %d although nothing else ran since its failure %d at %d; due at %d"
+                            % (kind, a, e.t, j, s["last_fail"][kind], due), e)
+            for k in list(since_fail_other): since_fail_other[k] = True
+            continue
+        if e.kind == "info" and e.f[3] in ("ok", "fail"):
+            a, kind = int(e.f[2]), e.f[4]
+            s, c = st[a], tl.assocs[a]
+            err = e.f[5] if e.f[3] == "fail" else None
+            # the response that ended the task, if any
+            resp = None
+            for x in reversed(tl.stream0[:pos]):
+                if x.t != e.t: break
+                if x.kind == "rx":
+                    resp = tl.rx.get(id(x)); break
+            restart_still_set = bool(resp and resp["iin1"] & IIN1_RESTART)
+            success = err is None
+            if kind in ("enable-unsol", "disable-unsol") and err == "iin2":
+                success = True
+            if kind == "clear-restart":
+                if err == "iin2": success = not restart_still_set
+                elif err is None: success = not restart_still_set
+            if kind in AUTO_TYPES:
+                if success:
+                    s["fails"][kind] = 0
+                else:
+                    s["fails"][kind] = s["fails"].get(kind, 0) + 1
+                    s["last_fail"][kind] = e.t
+                    since_fail_other[(a, kind)] = False
+            if success:
+                if kind == "disable-unsol": s["dis"] = True
+                if kind == "integrity": s["integ"] = True; s["gate"] = True
+                if kind == "enable-unsol": s["en"] = True
+                if kind == "clear-restart": s["clear"] = False
+    # one representative per clause keeps the report readable
+    seen, out = set(), []
+    for c_, d in fails:
+        if c_ not in seen:
+            seen.add(c_); out.append((c_, d))
+    return out
 
 
 class C17(Prop):
@@ -378,8 +606,7 @@ class C17(Prop):
         return sum(1 for l in impl if " start " in l) > 1 or any(l.startswith("delays") for l in impl)
 
     def oracle(self, case, impl):
-        fails = machinery_failures(impl)
-        return fails
+        return c17_oracle(case, impl)
 
     def finding_signature(self, case, clause, desc):
         return clause
